@@ -113,7 +113,10 @@ def _impl(tier, seed, search):
             if bad: L.fail(f'uq-ctor-nonunit:{fname}', f'UnitQuaternion({fname}) holds a value that is not a unit quaternion', inp, observed=[None if a is None else np.asarray(a).tolist() for a in X.data])
         # twists given as matrices must be of algebra form
         S = g.normal(size=6); M4 = np.zeros((4, 4)); M4[:3, :3] = np.array([[0, -S[5], S[4]], [S[5], 0, -S[3]], [-S[4], S[3], 0]]); M4[:3, 3] = S[:3]
+        def only(i_, j_):
+            E = np.zeros((4, 4)); E[i_, j_] = 10.0 ** g.uniform(-5.9, 0); return M4 + E
         for kind, Bad in (('non-skew', M4 + np.pad(np.triu(np.ones((3, 3)), 1) * 10.0 ** g.uniform(-5.9, 0), ((0, 1), (0, 1)))),
+                          ('non-skew(0,2)', only(0, 2)), ('non-skew(1,2)', only(1, 2)), ('non-skew(2,0)', only(2, 0)), ('non-skew(0,1)', only(0, 1)), ('diagonal(2,2)', only(2, 2)),
                           ('diagonal', M4 + np.diag([10.0 ** g.uniform(-5.9, 0), 0, 0, 0])), ('bottom-row', M4 + np.pad(np.zeros((3, 4)), ((0, 1), (0, 0)), constant_values=10.0 ** g.uniform(-5.9, 0)))):
             for fname, ctor in {'bare': lambda: Twist3(Bad), 'list': lambda: Twist3([M4, Bad])}.items():
                 inp = dict(cls='Twist3', defect=kind, form=fname, value=Bad)
